@@ -151,6 +151,12 @@ StringDictionaryHASHRPF::StringDictionaryHASHRPF(IteratorDictString *it, uint,
 unsigned long StringDictionaryHASHRPF::locate(uchar *str, uint strLen) {
   unsigned long id = NORESULT;
 
+  // Every stored string is ended by the symbol maxchar: a string holding that
+  // byte is not a member (and would be matched against consecutive strings)
+  for (uint i = 0; i < strLen; i++)
+    if (str[i] == rp->maxchar)
+      return id;
+
   size_t hval = bitwisehash(str, strLen, hash->tsize);
   size_t next;
 
